@@ -151,7 +151,7 @@ func TestVerifC13(t *testing.T) {
 			o.verdict("C13", fmt.Sprintf("s%d_near%d", si, i), what == "", true, "near:"+hxs(v), map[string]interface{}{"what": what, "values_hex": vhexAll(values), "i": i})
 		}
 		// plant a verbatim copy of one value in unrelated text
-		for k := 0; k < 8; k++ {
+		for k := 0; k < 9; k++ {
 			vi := rr.intn(len(values))
 			v := values[vi]
 			pre, post := vfiller(rr, rr.intn(6)), vfiller(rr, rr.intn(6))
@@ -190,6 +190,15 @@ func TestVerifC13(t *testing.T) {
 				}
 				vi = planted[0]
 				v = strings.Join(parts, " ")
+			}
+			if k == 8 {
+				// the copy directly followed (and sometimes preceded) by a punctuation mark, no blank in
+				// between: the mark is a token of its own that begins exactly where the copy ends
+				core := strings.TrimSpace(v)
+				v = []string{"", "(", "\"", "\u201c"}[rr.intn(4)] + core + []string{".", ",", "\"", ")", ";", "\u201d", "?"}[rr.intn(7)]
+				if strings.TrimSpace(values[vi]) != values[vi] {
+					continue // a value registered with stray blanks does not occur next to a mark
+				}
 			}
 			if k == 7 {
 				// the value's text occurs literally but INSIDE a longer word (no token starts or ends
@@ -295,7 +304,36 @@ func TestVerifC13(t *testing.T) {
 						cs, ce := off+lead, off+lead+len(core)
 						rb, _ := utf8.DecodeLastRuneInString(normU[:cs])
 						ra, _ := utf8.DecodeRuneInString(normU[ce:])
-						if (cs == 0 || unicode.IsSpace(rb)) && (ce == len(normU) || unicode.IsSpace(ra)) {
+						// a copy that another value's text overlaps (a value spelled by the end of one copy and
+						// the beginning of the next) competes with that value's match: only one of two
+						// overlapping matches is reported, and the property does not say which
+						overlapped := false
+						for oi, ov := range values {
+							nov := c.normalize(ov)
+							if oi == pvi || strings.TrimFunc(nov, unicode.IsSpace) == "" {
+								continue
+							}
+							for f2 := 0; f2 <= len(normU); {
+								j := strings.Index(normU[f2:], nov)
+								if j < 0 {
+									break
+								}
+								if f2+j < off+len(normV) && off < f2+j+len(nov) {
+									overlapped = true
+								}
+								f2 += j + 1
+							}
+						}
+						if overlapped {
+							from = off + 1
+							continue
+						}
+						// token-aligned: at either end the copy meets the end of the text, white space, or a
+						// boundary with a punctuation mark on at least one side (every mark is a token)
+						wordRune := func(r rune) bool { return !unicode.IsSpace(r) && !unicode.IsPunct(r) }
+						cf, _ := utf8.DecodeRuneInString(normU[cs:])
+						cl, _ := utf8.DecodeLastRuneInString(normU[:ce])
+						if (cs == 0 || !(wordRune(rb) && wordRune(cf))) && (ce == len(normU) || !(wordRune(ra) && wordRune(cl))) {
 							found := false
 							for _, m := range ms {
 								if m.Name == fmt.Sprintf("v%d", pvi) && m.Confidence == 1.0 && m.Offset == off && m.Extent == len(normV) {
@@ -402,6 +440,14 @@ func TestVerifC14(t *testing.T) {
 				ws := strings.Fields(vals[rr.intn(len(vals))])
 				ws[rr.intn(len(ws))] = "zzz"
 				q = strings.Join(ws, " ")
+			}
+			if i%3 == 1 {
+				// copies of several values in one text: one call then collects the hits of several known
+				// values at once (each is searched for in a goroutine of its own)
+				q = vfiller(rr, 2)
+				for _, j := range []int{rr.intn(len(vals)), rr.intn(len(vals)), rr.intn(len(vals)), rr.intn(len(vals))} {
+					q += " " + vals[j] + " " + vfiller(rr, 1+rr.intn(3))
+				}
 			}
 			queries = append(queries, q)
 		}
